@@ -237,11 +237,12 @@ func run[C any](t *testing.T, p *prop[C]) {
 			rec.Class("regression:witness")
 			handle(c, safeCheck(p, c, rec), t.Fatalf)
 		}
-		if p.Exhaustive != nil {
-			p.Exhaustive(rec, func(c C) {
-				handle(c, safeCheck(p, c, rec), t.Fatalf)
-			})
-		}
+	}
+	if p.Exhaustive != nil {
+		// enumerators partition their space over the shards themselves
+		p.Exhaustive(rec, func(c C) {
+			handle(c, safeCheck(p, c, rec), t.Fatalf)
+		})
 	}
 	if p.Gen == nil {
 		return
